@@ -128,6 +128,45 @@ def _whole_filter_empty(prog, ctx, p):
     return empty_subfilter_lemma(prog, Effects(prog), ctx) is None and empty_filter_reports_absent(prog) is None
 
 
+def _scan_loop_verdict(prog, ctx, p):
+    """the presence scan written as a loop over the whole sub-filter list inside add_alt: True when this path left the loop on a hit, False when
+    the round it stands for (every round that does not leave the loop looks like one of the paths, and each path is judged) either probed the
+    sub-filter and missed, or skipped it because its own counter is 0 - which is a miss by the two empty-filter lemmas; None when the path
+    has no such loop or lets a round pass in any other way"""
+    h = ("p", "hashes")
+    its = {n for c in p.conds for n in walk(strip_epochs(c.atom)) if n[0] == "it" and n[2] == BLOOMS}
+    if any(strip_epochs(c.atom)[0] == "loop0" and strip_epochs(c.atom)[2] == BLOOMS and c.truth for c in p.conds) and not its:
+        return False  # no sub-filter at all: nothing can be present
+    if len(its) != 1:
+        return None
+    it = next(iter(its))
+    if any(e.kind == "loopbreak" and e.lid == it[1] for e in p.events):
+        return None  # the scan was cut short: the sub-filters after this one were not looked at
+    count = ("f", it, "_els_added", 0)
+    probed, skipped_empty, nonempty = None, False, False
+    for c in p.conds:
+        a = strip_epochs(c.atom)
+        if not any(n == it for n in walk(a)):
+            continue
+        if a[0] == "ret" and a[1].endswith("BloomFilter.check_alt") and a[3] == (it, h):
+            probed = c.truth
+        elif a == count:
+            skipped_empty, nonempty = skipped_empty or not c.truth, nonempty or c.truth
+        elif a[0] == "cmp" and a[2] == count and a[3] == C(0) and a[1] in ("==", "!=", ">"):
+            z = (a[1] == "==") == c.truth
+            skipped_empty, nonempty = skipped_empty or z, nonempty or not z
+        else:
+            return None
+    if probed is True:
+        return True
+    if probed is False and not skipped_empty:
+        return False
+    if skipped_empty and probed is None and not nonempty:
+        if empty_subfilter_lemma(prog, Effects(prog), ctx) is None and empty_filter_reports_absent(prog) is None:
+            return False
+    return None
+
+
 def add_alt_shape(prog, rep, prefix, ctx, counter):
     """counter +1 exactly once on every path; insert <=> force or not present; list operations only before the insert.
     Returns [(path, insert event or None, list operations)] for the non-raising paths"""
@@ -163,6 +202,8 @@ def add_alt_shape(prog, rep, prefix, ctx, counter):
                 present = True
             elif _covers_all([sel for sel, _ in probes]):
                 present = False
+        if present is None and not probes and force is not True:
+            present = _scan_loop_verdict(prog, ctx, p)
         if present is None and force is not True and _whole_filter_empty(prog, ctx, p):
             present = False  # nothing was ever stored: the scan that was skipped could only have answered "absent"
         def newest_at(i, recv):
@@ -313,7 +354,7 @@ def check(prog, rep, tier):
     sub_counter_once(prog, rep, "C09.sub-counter")
 
 
-from ..selftest import Mutant, del_stmt, insert_stmt, replace_expr, replace_stmt, swap_cmp
+from ..selftest import Mutant, del_stmt, insert_stmt, replace_expr, replace_stmt, swap_cmp, seq
 
 _E, _B = "blooms/expandingbloom.py", "blooms/bloom.py"
 MUTANTS = [
@@ -329,6 +370,19 @@ MUTANTS = [
            "force or (len(self._blooms) == 1 and self._blooms[-1].elements_added == 0) or not self.check_alt(hashes)"), expect="silent"),
     Mutant("presence scan skipped whenever the newest sub-filter is empty", _E, replace_expr("ExpandingBloomFilter", "add_alt", "force or not self.check_alt(hashes)",
            "force or self._blooms[-1].elements_added == 0 or not self.check_alt(hashes)"), rule="C09.insert"),
+    Mutant("presence scan written out in add_alt, empty sub-filters skipped (same result)", _E, replace_stmt("ExpandingBloomFilter", "add_alt", "if force or not self.check_alt(hashes)",
+           "if not force:\n    for blm in self._blooms:\n        if not blm.elements_added:\n            continue\n        if blm.check_alt(hashes):\n            return\nself.__check_for_growth()\nself._blooms[-1].add_alt(hashes)"), expect="silent"),
+    Mutant("presence scan written out in add_alt, stops at the first empty sub-filter", _E, replace_stmt("ExpandingBloomFilter", "add_alt", "if force or not self.check_alt(hashes)",
+           "if not force:\n    for blm in self._blooms:\n        if not blm.elements_added:\n            break\n        if blm.check_alt(hashes):\n            return\nself.__check_for_growth()\nself._blooms[-1].add_alt(hashes)"), rule="C09.insert"),
+    Mutant("newest sub-filter remembered in a _tail field that every writer of the list refreshes (same behaviour)", _E, seq(
+        insert_stmt("ExpandingBloomFilter", "__add_bloom_filter", "self._tail = blm", at_end=True),
+        insert_stmt("ExpandingBloomFilter", "_parse_blooms", "self._tail = self._blooms[-1]", at_end=True),
+        replace_stmt("ExpandingBloomFilter", "add_alt", "if force or not self.check_alt(hashes)", "if force or not self.check_alt(hashes):\n    self.__check_for_growth()\n    self._tail.add_alt(hashes)"),
+        replace_expr("ExpandingBloomFilter", "__check_for_growth", "self._blooms[-1].elements_added", "self._tail.elements_added")), expect="silent"),
+    Mutant("newest sub-filter remembered in a _tail field that the loader does not refresh", _E, seq(
+        insert_stmt("ExpandingBloomFilter", "__add_bloom_filter", "self._tail = blm", at_end=True),
+        replace_stmt("ExpandingBloomFilter", "add_alt", "if force or not self.check_alt(hashes)", "if force or not self.check_alt(hashes):\n    self.__check_for_growth()\n    self._tail.add_alt(hashes)"),
+        replace_expr("ExpandingBloomFilter", "__check_for_growth", "self._blooms[-1].elements_added", "self._tail.elements_added")), rule="C09."),
     Mutant("sub-filter built for 2*est", _E, replace_expr("ExpandingBloomFilter", "__add_bloom_filter", "self.__est_elements", "self.__est_elements * 2"), rule="C09.append"),
     Mutant("BloomFilter.add_alt counts per hash", _B,
            replace_stmt("BloomFilter", "add_alt", "self._els_added += 1", "pass"), rule="C09.sub-counter"),
